@@ -154,6 +154,11 @@ def history_plan(world, fill):
             if g is not None and g.startswith("["):
                 g = g[1:-1]
             extra.append({"op": "getExt", "k": 0, "group": g, "key": a[3], "tag": "ext"})
+    # a setter that refuses its value for a key that does not exist yet, followed by growth: whatever the refused
+    # call leaves behind must still be owned exactly once
+    extra.append({"op": "set", "k": 0, "type": "Bool", "group": None, "key": "lesim-refused", "v": "maybe", "tag": "refused_new"})
+    extra.append({"op": "set", "k": 0, "type": "Bool", "group": "lesim-sec", "key": "lesim-refused", "v": "2", "tag": "refused_new"})
+    extra.append({"op": "set", "k": 0, "type": "String", "group": None, "key": "lesim-after", "v": "x", "tag": "after_refused"})
     p["ops"] = p["ops"][:-2] + extra + p["ops"][-2:] + [{"op": "freeNull", "tag": "freenull"}]
     p["cfg"] = dict(world["cfg"], fill=fill)
     return p
